@@ -3,6 +3,7 @@ package kit
 import (
 	"bytes"
 	"encoding/json"
+	"fmt"
 	"sort"
 
 	"pgregory.net/rapid"
@@ -108,8 +109,31 @@ func CorruptJSON(t *rapid.T, text []byte, n int, protect map[string]bool) ([]byt
 			break
 		}
 		p := paths[rapid.IntRange(0, len(paths)-1).Draw(t, "node")]
-		kind := rapid.IntRange(0, 9).Draw(t, "corruption")
+		kind := rapid.IntRange(0, 10).Draw(t, "corruption")
 		switch {
+		case kind == 10:
+			// an array grows: its elements are repeated until it has some dozens of
+			// them (many conditions, mutations, operations, set elements, map pairs)
+			var arrays []jsonPath
+			for _, q := range paths {
+				if v, ok := nodeAt(tree, q).([]interface{}); ok && len(v) > 0 {
+					arrays = append(arrays, q)
+				}
+			}
+			if len(arrays) == 0 {
+				continue
+			}
+			q := arrays[rapid.IntRange(0, len(arrays)-1).Draw(t, "arraynode")]
+			size := rapid.SampledFrom([]int{9, 17, 24, 33, 48, 63, 65, 130}).Draw(t, "amplify")
+			tree, _ = rewrite(tree, q, func(x interface{}) (interface{}, bool) {
+				v := x.([]interface{})
+				out := make([]interface{}, 0, size)
+				for len(out) < size {
+					out = append(out, v[len(out)%len(v)])
+				}
+				return out, false
+			})
+			desc = append(desc, fmt.Sprintf("amplify:%d", size))
 		case kind <= 2:
 			h := rapid.SampledFrom(hostileNodes).Draw(t, "hostile")
 			var hv interface{}
